@@ -21,3 +21,6 @@ def run(prog, rep):
     r_valid.run_loop_fresh(prog, rep)
     _ru3.run_tables(prog, rep)
     r_valid.run_sorted_agree(prog, rep)
+    from ..rules import r_order as _ro19
+    _ro19.run_name_first(prog, rep)
+    _ro19.run_lookup(prog, rep)
